@@ -419,8 +419,8 @@ class Machine:
                 return 'bool'
             if v.startswith('"'):
                 return '&str'
-            if re.match(r'^-?[0-9.]+(e[+-]?[0-9]+)?f64$', v, re.I):
-                return 'f64'
+            if re.match(r'^-?[0-9.]+(e[+-]?[0-9]+)?f(32|64)$', v, re.I):
+                return v[-3:]
             m = re.match(r'^ZeroSized: (.*)$', v)
             if m:
                 return m.group(1)
@@ -514,8 +514,12 @@ class Machine:
             return ord(mm.group(1))
         if s == 'std::f64::consts::LOG2_10':
             return 3.32192809488736234787031942948939018
-        if re.match(r'^-?[0-9.]+(e[+-]?[0-9]+)?f64$', s, re.I):
+        if re.match(r'^-?[0-9.]+(e[+-]?[0-9]+)?f(32|64)$', s, re.I):
             return float(s[:-3])
+        mf = re.match(r'^(?:std|core)::(f32|f64)::consts::([A-Z0-9_]+)$', s)
+        if mf:
+            import math
+            return {'LOG2_10': 3.32192809488736234787031942948939018, 'PI': math.pi, 'E': math.e, 'LN_10': math.log(10), 'LOG10_2': math.log10(2)}[mf.group(2)]
         m = re.match(r'^ZeroSized: (.*)$', s)
         if m:
             t = m.group(1)
@@ -627,11 +631,21 @@ class Machine:
             if kind == 'IntToFloat':
                 if is_sym(x):
                     x = self.concretize(x)
+                if ty.strip() == 'f32':
+                    import struct
+                    return struct.unpack('<f', struct.pack('<f', float(x)))[0]
                 return float(x)
+            if kind == 'FloatToFloat':
+                if ty.strip() == 'f32':
+                    import struct
+                    return struct.unpack('<f', struct.pack('<f', x))[0]
+                return x
             if kind == 'FloatToInt':
                 lo, hi = INT_RANGE[ty.strip()]
                 if x != x:
                     return 0
+                if x in (float('inf'), float('-inf')):
+                    return hi if x > 0 else lo
                 return max(lo, min(hi, int(x)))
             if kind == 'Transmute' and isinstance(x, Agg) and x.kind == 'boxptr':
                 return Ref([x], 0)
@@ -665,6 +679,15 @@ class Machine:
         return (x - dlo) % n + dlo
 
     def binop(self, op, x, y, dest_ty, opnd_ty):
+        if type(x).__name__ == 'FloatV' or type(y).__name__ == 'FloatV':
+            from .summaries import float_eq
+            fty = (x if type(x).__name__ == 'FloatV' else y).ty
+            if op == 'Eq':
+                return float_eq(self, fty, x, y)
+            if op == 'Ne':
+                r = float_eq(self, fty, x, y)
+                return (not r) if isinstance(r, bool) else z3.Not(r)
+            raise Unsupported('float binop %s on a symbolic float' % op)
         if op in ('Eq', 'Ne', 'Lt', 'Le', 'Gt', 'Ge'):
             if isinstance(x, bool) or isinstance(y, bool) or (is_sym(x) and z3.is_bool(x)):
                 if op == 'Eq':
@@ -693,16 +716,45 @@ class Machine:
                 lo, hi = INT_RANGE[ity]
                 v = (v - lo) % (hi - lo + 1) + lo
             return v  # symbolic: assume compiler-proved no overflow (unchecked arithmetic only appears where rustc elided the check)
-        if op == 'BitAnd' and not is_sym(x) and not is_sym(y):
-            return x & y
-        if op == 'Shr' and not is_sym(y):
+        if op in ('BitAnd', 'BitOr', 'BitXor') and not is_sym(x) and not is_sym(y):
+            return {'BitAnd': x & y, 'BitOr': x | y, 'BitXor': x ^ y}[op]
+        if op == 'BitAnd' and (is_sym(x) != is_sym(y)):
+            v, mask = (x, y) if is_sym(x) else (y, x)
+            if mask < 0:
+                raise Unsupported('BitAnd with negative mask')
+            if mask == 0:
+                return 0
+            a = (mask & -mask).bit_length() - 1          # lowest set bit
+            b = mask.bit_length() - a                     # number of bits up to the highest set bit
+            if mask != ((1 << b) - 1) << a:
+                raise Unsupported('BitAnd with non-contiguous mask %x' % mask)
+            # v = hi*2^(a+b) + mid*2^a + lo ;  result = mid*2^a
+            hi, mid, lo = self.fresh('bh'), self.fresh('bm'), self.fresh('bl')
+            self.assume(z3.And(v == hi * 2 ** (a + b) + mid * 2 ** a + lo, lo >= 0, lo < 2 ** a, mid >= 0, mid < 2 ** b, hi >= 0))
+            return mid * 2 ** a if a else mid
+        if op in ('Shr', 'ShrUnchecked') and not is_sym(y):
             if not is_sym(x):
                 return x >> y
             q, r = self.fresh('shq'), self.fresh('shr')
             self.assume(z3.And(x == q * 2 ** y + r, r >= 0, r < 2 ** y))
             return q
-        if op == 'Shl' and not is_sym(y) and not is_sym(x):
-            return x << y
+        if op in ('Shl', 'ShlUnchecked') and not is_sym(y):
+            ity = self.int_ty_of(dest_ty)
+            width = {'u8': 8, 'u16': 16, 'u32': 32, 'u64': 64, 'u128': 128, 'usize': 64}.get(ity)
+            if not is_sym(x):
+                v = x << y
+                if ity:
+                    lo, hi = INT_RANGE[ity]
+                    v = (v - lo) % (hi - lo + 1) + lo
+                return v
+            if width is None:
+                raise Unsupported('Shl of symbolic signed value')
+            if y >= width:
+                return 0
+            # (x * 2^y) mod 2^width = r * 2^y  where x = q*2^(width-y) + r
+            q, r = self.fresh('slq'), self.fresh('slr')
+            self.assume(z3.And(x == q * 2 ** (width - y) + r, r >= 0, r < 2 ** (width - y), q >= 0))
+            return r * 2 ** y
         if op in ('Div', 'Rem'):
             return self.tdivrem(x, y)[0 if op == 'Div' else 1]
         raise Unsupported('binop ' + op)
